@@ -244,7 +244,7 @@ impl<F: Float, const MULTI_TASK: bool> ParamGuard for ElasticNetParamsBase<F, MU
             Err(ElasticNetError::InvalidL1Ratio(
                 self.0.l1_ratio.to_f32().unwrap(),
             ))
-        } else if self.0.tolerance.is_negative() {
+        } else if self.0.tolerance <= F::zero() {
             Err(ElasticNetError::InvalidTolerance(
                 self.0.tolerance.to_f32().unwrap(),
             ))
